@@ -19,7 +19,8 @@ RULE = ('NOT exhaustive as a whole: the span pairs below are enumerated complete
         'fills rotate through a palette (None, bools, ints, halves, nan, inf, strings that fit / are truncated / do not parse), unknown fill '
         'names x strict argument None/True/False x object strict flag; histories (an earlier reindex call with other fill arguments on the same '
         'object or on a sibling instance of the same class, incl. equal-but-different fill values 1 / 1.0 / True and 0 / 0.0 / False per dtype; reindex '
-        'chains: the object observed is the result of reindexing through same-length shifted windows); old spans with duplicates; the new span being the original span '
+        'chains: the object observed is the result of reindexing through same-length shifted windows); labels of different types whose text coincides '
+        '(integer old spans against the strings 2003 / +2003 / 2003.0 and back); old spans with duplicates; the new span being the original span '
         'object; the pandas mixin with default and explicit arguments and fill methods; a tracer-extended model; stacked mixins (aliases, aliases + '
         'tracer, pandas + tracer: same class, aliases resolve on the result); BaseLinker.reindex (NotImplementedError, linker unchanged). Non-trivial = at least one '
         'overlapping and one new period, or an exception path; distinct by hash of the whole case.')
@@ -1082,6 +1083,30 @@ def gen(rng, tier):
                 if cls == 'BMP':
                     c['pandas'] = {}
                 cases.append(c)
+    # labels of DIFFERENT types whose text coincides: '2003' (also ' 2003', '+2003', '2003.0') is not the period 2003 — by label equality
+    # the spans are disjoint and every such period takes the fill (no cast of a string label to an int, as eval() does for backticks)
+    xk = 0
+    ints = [['i', 2000 + i] for i in range(5)]
+    olds = [{'type': 'range', 'start': 2000, 'step': 1, 'n': 5}, {'type': 'list', 'labels': ints}, {'type': 'tuple', 'labels': ints[:4]},
+            {'type': 'nparr', 'labels': ints}, {'type': 'pdindex', 'labels': ints}]
+    news = [('list', [['s', '2003'], ['s', '2004'], ['s', '2005']]), ('tuple', [['s', '2001'], ['s', '2000']]), ('nparr', [['s', '2002'], ['s', '2003'], ['s', '1999']]),
+            ('list', [['s', '2003'], ['i', 2004], ['s', ' 2001'], ['s', '+2002'], ['s', '2000.0']]), ('list', [['i', 2001], ['s', '2001'], ['f', 2002.0]]),
+            ('list', [['s', '2004']])]
+    for oldspec in olds:
+        for nt, nl in news:
+            for cls in ('VC', 'BM', 'BMP'):
+                xk += 1
+                c = {'cls': cls, 'old': oldspec, 'new': {'type': nt, 'labels': nl}, 'vars': STD_VARS, 'solved': 2 + xk % 2, 'fill_value': None,
+                     'fills': [[], [['F', ['f', 2.5]], ['I', ['i', 7]]]][xk % 2], 'strict': None, 'obj_strict': False}
+                if cls == 'BMP':
+                    c['pandas'] = {}
+                cases.append(c)
+    # ... and the other way round: string-labelled old spans, integer new labels
+    for oldspec in ({'type': 'list', 'labels': [['s', '2000'], ['s', '2001'], ['s', '2002']]}, {'type': 'nparr', 'labels': [['s', '2000'], ['s', '2001'], ['s', '2002']]}):
+        for nl in ([['i', 2001], ['i', 2002], ['i', 2003]], [['s', '2001'], ['i', 2001]]):
+            for cls in ('VC', 'BM'):
+                cases.append({'cls': cls, 'old': oldspec, 'new': {'type': 'list', 'labels': nl}, 'vars': STD_VARS, 'solved': 1, 'fill_value': None, 'fills': [],
+                              'strict': None, 'obj_strict': False})
     # linkers: reindex is documented as not implemented (NotImplementedError whatever the arguments)
     for n_old, n_new in ((2, 3), (3, 2), (0, 1)):
         for fv, fl in ((None, []), (['f', 2.5], []), (None, [['status', ['s', 'F']]])):
